@@ -53,7 +53,7 @@ Theorem requested_file_direct : forall c t p n k sz d ff,
   c_paths c = [p] -> lookup t p = Some (File n k sz d ff) -> ff_clean ff = true ->
   no_limits c = true -> no_xpanic c ->
   fs_calls c t = if kind_accepted c k && size_ok c sz
-                 then map (fun e => (e, p)) (filter (fun e => c_required c e p) (c_exts c)) else [].
+                 then map (fun e => (e, p)) (filter (fun e => req c e p sz no_ff) (c_exts c)) else [].
 Proof. exact requested_file_lemma. Qed.
 Print Assumptions requested_file_direct.
 
